@@ -5,11 +5,11 @@ spec/Sched/Priority.tla       property (pend, Allowed) + transcription of the C 
 spec/Sched/PriorityTrace.tla  validates the operations executed on the real module: every select returns a task of
                               Allowed(pend), NULL exactly when nothing is pending
 
-1. TLC: for each module, breadth-first over EVERY sequence of schedule(ring, distance)/select operations up to a
-   bound; invariant ImplRefines proves the transcription of the code selects an allowed task in every reachable state
+1. TLC: for the three modules (chosen in Init), breadth-first over EVERY sequence of schedule(ring, distance)/select
+   operations up to a bound; invariant ImplRefines proves the transcription of the code selects an allowed task in every reachable state
    (for ip: the variant that ignores the distance, which is what the property requires; the variant that appends
    re-scheduled rings at the back - the code of the pinned commit - must violate it: sensitivity + model-level
-   reproduction of defect D9).
+   reproduction of the ip re-schedule defect, key ip-resched-chain-back).
 2. every such sequence (+ TLC -simulate long walks with wider priorities / longer rings) is replayed through the real
    module's schedule/select (harness/sched/sched_drive.c, PARSEC_MCA_mca_sched=<m>, one stream), then the scheduler is
    drained; the recorded results are validated by TLC against PriorityTrace (Level "prop" = verdict; Level "code" =
@@ -28,10 +28,11 @@ META = {
             "through their schedule/select entry points and every returned task is validated by TLC against the "
             "property (highest first with ties in scheduling order for ap and, per smallest pending distance, for spq; "
             "lowest first for ip; NULL only when nothing is pending).",
-    "note": "Exhaustive for all sequences of <= 5 (quick) / 6 (thorough) operations, <= 3 / 4 tasks, rings <= 2 / 3, priorities "
-            "{0,1,2}, distances {0,1} (ap, ip) / {0,1,2} (spq); simulated walks of 30-60 operations with priorities -2..3, "
-            "rings <= 3, distances 0..3 beyond that. One stream, no concurrency (as the property states). Trusted: TLC, "
-            "the harness' id bookkeeping.",
+    "note": "Exhaustive for all sequences of <= 4 (quick) / 5 (thorough) operations, <= 3 / 4 tasks, rings <= 2, priorities "
+            "{0,1,2}, distances {0,1} (ap, ip) / {0,1,2} (spq), each followed by a complete drain (so the full selection "
+            "order of every pending set is observed); thorough adds the refinement proof on the state graph with 5 tasks "
+            "and rings <= 3; simulated walks of 30-60 operations with priorities -2..3, rings <= 3, distances 0..3 beyond "
+            "that. One stream, no concurrency (as the property states). Trusted: TLC, the harness' id bookkeeping.",
     "technique": "TLA+ refinement (TLC BFS over all op sequences) + replay on the real scheduler modules + trace validation (TLC)",
 }
 
@@ -109,7 +110,7 @@ def run(ctx):
     exe = ctx.harness("sched_drive", ["harness/sched/sched_drive.c"])
     q = ctx.quick
     # ---- 1. every operation sequence up to the bound; the transcription refines the property -----------------
-    mt, ml, mr = (3, 5, 2) if q else (4, 6, 2)
+    mt, ml, mr = (3, 4, 2) if q else (4, 5, 2)
     mod, cfg = mcgen.write_mc(d, "bfs", "Priority", consts(MODES, {0, 1, 2}, {0, 1, 2}, mr, mt, ml),
                               invariants=("TypeOK", "ImplRefines", "ImplHolds", "Deterministic", "Emit"))
     r = ctx.tlc_check(d, mod, cfg, must_cover=("Schedule", "Select"), workers=4, timeout=2400)
@@ -127,7 +128,7 @@ def run(ctx):
     mod, cfg = mcgen.write_mc(d, "sim", "Priority", consts(MODES, {-2, 0, 1, 3}, {0, 1, 2, 3}, 3, 3 * depth, depth),
                               spec="SimSpec", invariants=("ImplHolds", "Emit"))
     hs += ctx.tlc_histories(d, mod, cfg, num, depth + 1, workers=4, timeout=1200)
-    # sensitivity of the model + model-level reproduction of D9: ip appending re-scheduled rings at the back
+    # sensitivity of the model + model-level reproduction of the ip re-schedule defect: ip appending re-scheduled rings at the back
     mod, cfg = mcgen.write_mc(d, "ipback", "Priority", consts({"ip"}, {0, 1, 2}, {0, 1}, 2, 3, 0, keephist=False, ipback=True),
                               invariants=("TypeOK", "ImplRefines"))
     r = ctx.tlc_check(d, mod, cfg, expect_ok=False, workers=2)
@@ -138,7 +139,7 @@ def run(ctx):
     ctx.extra["behaviours_simulated"] = len(hs) - n_bfs
 
     # ---- 2. replay on the real modules ---------------------------------------------------------------------------
-    main, resched = [], []          # (line, mode, events); ip behaviours that re-schedule (distance > 0) apart: D9
+    main, resched = [], []          # (line, mode, events); ip behaviours that re-schedule (distance > 0) apart: the ip re-schedule defect
     for mode in MODES:
         mine = [h for h in hs if h["m"] == mode]
         lines = [to_line(h) for h in mine]
@@ -194,7 +195,7 @@ def run(ctx):
             report(resched, False)             # something else than a disallowed select: full search
         elif rej:
             # Every execution of this group behaves exactly as the transcription with chain_back (variant), whose
-            # only difference to the refining variant is the treatment of distance > 0: these rejections are D9.
+            # only difference to the refining variant is the treatment of distance > 0: these rejections are that defect.
             # The first two are validated alone (verdict + longest explainable prefix); when the group does not
             # follow that transcription every rejected execution is examined.
             known = variant == "chain_back"
